@@ -47,8 +47,14 @@ ObsClass(rec, s1) ==
   ELSE IF ~SeqObsEq(rec.obs, s1.obs) THEN "order"     \* interleaving of enqueues and content
   ELSE ""
 
+\* every guard value the code logged must be the value the specification computes for that condition
+\* in the pre-step configuration and data (In() predicates, comparisons on data)
+GuardsOk(s, g) == \A i \in DOMAIN g :
+                    LET c == Trans(D, g[i][1]).cond IN g[i][2] = (~CondErr(s.data, c) /\ CondVal(s.cfg, s.data, c))
+
 AfterSelect(rec, s1, en, nextpc, x) ==
-  IF rec.ts # en THEN BadI(s1, "enabled", en)
+  IF ~GuardsOk(s1, rec.gv) THEN Bad(s1, "guard")
+  ELSE IF rec.ts # en THEN BadI(s1, "enabled", en)
   ELSE IF en = <<>> THEN (IF rec.micro \/ rec.obs # <<>> THEN Bad(s1, "noop") ELSE Res(s1, nextpc, x, ""))
   ELSE IF ~rec.micro THEN Bad(s1, "order")
   ELSE LET s2 == Microstep(D, s1, en) c == ObsClass(rec, s2) IN
